@@ -116,6 +116,7 @@ type T struct {
 	brk, cont  []K
 	nloops     int
 	trustLocal map[string]bool
+	loopDepth  int
 }
 
 var reservedNames = map[string]bool{}
